@@ -110,7 +110,12 @@ func runC24(r *Run) {
 			count = append(count, s)
 		}
 	}
-	if !r.Anchor(R1, "one counting switch and one writing switch over a byte of the parameter in "+key, len(count) == 1 && len(write) == 1) {
+	if !(len(count) == 1 && len(write) == 1) && c24EntityForm(r, fi, subj, key) {
+		// the escaper is written around one byte→entity function used by both passes
+		c24Forwarders(r, fi)
+		return
+	}
+	if !r.Anchor(R1, "one counting switch and one writing switch over a byte of the parameter in "+key+" (or one byte→entity function used by a counting and a writing loop)", len(count) == 1 && len(write) == 1) {
 		return
 	}
 	cs, ws := count[0], write[0]
@@ -254,8 +259,16 @@ func runC24(r *Run) {
 		o.OK("ordinary bytes add nothing to %s", nObj.Name())
 	}
 
-	// buffer size
-	o = r.Ob(R1, key+"#buffer-size", fi.Decl.Pos())
+	c24BufferSize(r, key, fi, info, bObj, nObj, subj)
+	r.Require(R1, 5*3+5)
+
+	c24Forwarders(r, fi)
+}
+
+// c24BufferSize: the output buffer is made once with len(s)+n bytes.
+func c24BufferSize(r *Run, key string, fi *FuncInfo, info *types.Info, bObj, nObj types.Object, subj *types.Var) {
+	const R1 = "R-1"
+	o := r.Ob(R1, key+"#buffer-size", fi.Decl.Pos())
 	var mk *ast.CallExpr
 	nmk := 0
 	ast.Inspect(fi.Decl.Body, func(n ast.Node) bool {
@@ -309,9 +322,11 @@ func runC24(r *Run) {
 			o.Unknown("buffer size %s is not a sum the rule understands", exprStr(size))
 		}
 	}
-	r.Require(R1, 5*3+5)
+}
 
-	// ---- R-2: forwarders in package builtin
+// c24Forwarders is R-2: forwarders in package builtin
+func c24Forwarders(r *Run, fi *FuncInfo) {
+	const R2 = "R-2"
 	nfw := 0
 	for _, bf := range r.P.Funcs("builtin") {
 		if r.P.isTestFile(bf.File) || bf.Obj == nil || !bf.Obj.Exported() || bf.Decl.Recv != nil {
